@@ -178,7 +178,10 @@ theorem NP_strRule (a c d : Bytes) (v : GoVal) (ok : Bytes → M Bool) (dflt : B
     rcases parseValidNameKV a with ⟨k, tv, cm⟩
     np
 
-theorem NP_timeOk (e : Ext) (l s : Bytes) : NP (timeOk e l s) := by unfold timeOk; np
+theorem NP_timeOk (e : Ext) (l s : Bytes) : NP (timeOk e l s) := by
+  unfold timeOk; split
+  · exact NP_pure _
+  · np
 
 theorem NP_rulePhone (a c d : Bytes) (v : GoVal) : NP (rulePhone a c d v) := NP_strRule _ _ _ _ _ _ fun _ => NP_pure _
 theorem NP_ruleEmail (a c d : Bytes) (v : GoVal) : NP (ruleEmail a c d v) := NP_strRule _ _ _ _ _ _ fun _ => NP_pure _
